@@ -540,13 +540,13 @@ func (mr *memRepo) gc() error {
 	mr.mu.Lock()
 	defer mr.mu.Unlock()
 	mr.log.Debug("starting GC", "repo", mr.path)
-	i, mod, err := repoGarbageCollect(mr, mr.conf, mr.index, true)
-	if err != nil {
-		return err
-	}
-	if mod {
+	_, _, err := repoGarbageCollect(mr, mr.conf, mr.index, true, func(i types.Index) error {
 		mr.index = i
 		mr.timeMod = time.Now()
+		return nil
+	})
+	if err != nil {
+		return err
 	}
 	mr.log.Debug("finished GC", "repo", mr.path)
 	return nil
